@@ -144,11 +144,13 @@ def accum_flavour(db):
 DIGITS = tuple(range(48, 58))
 
 
-def record(st, kind, before, k, new_len, excl):
+def record(st, kind, before, k, new_len, excl, val=None):
     """ghost trace of the scanners for the grammar clause: the run (kind, remaining length before it, its length) and what contract A promises
     about the byte that follows the run (it is not one of `excl`)"""
     g = dict(st.ghost)
     g['events'] = tuple(g.get('events', ())) + ((kind, before, pfreeze(st.norm(k))),)
+    # the value term the contract introduced for this run (numeral so far / exponent), parallel to the events: used by selftest/abscover.py only
+    g['values'] = tuple(g.get('values', ())) + ((kind, None if val is None else pfreeze(st.norm(val))),)
     be = dict(g.get('byte_excl') or {})
     key = pfreeze(st.norm(new_len))
     be[key] = tuple(sorted(set(be.get(key, ())) | set(excl)))
@@ -242,7 +244,7 @@ def value_summaries(db, flavour):
         g['k_last'] = pfreeze(st.norm(k.p))
         g['n_calls'] = g.get('n_calls', 0) + 1
         st.ghost = g
-        record(st, 'digits', before, k.p, new.p, DIGITS)
+        record(st, 'digits', before, k.p, new.p, DIGITS, D)
         return k
 
     def s_exp(I, st, args, fid):
@@ -262,7 +264,7 @@ def value_summaries(db, flavour):
         commit_lit()
         write_back(I, st, args[1], E)
         st.ghost = dict(st.ghost, E=pfreeze(st.norm(E.p)))
-        record(st, 'expdigits', before, k.p, new.p, DIGITS)
+        record(st, 'expdigits', before, k.p, new.p, DIGITS, E.p)
         return k
     return {helper(db, 'skip_leading_zeroes')['id']: s_skip, helper(db, 'accum_coeff')['id']: s_coeff, helper(db, 'accum_exp')['id']: s_exp}
 
